@@ -838,7 +838,7 @@ impl Prop for Prims {
     }
     fn floors(&self) -> Vec<(&'static str, u64, u64)> {
         match self.0 {
-            Which::Distance => vec![("exhaustive pairs", 100000, 2000000), ("prefix cells compared", 1000000, 20000000), ("pairs where a discount lowered the distance", 10000, 100000), ("random pairs beyond capacity 20", 500, 5000), ("long pairs with sampled prefix cells", 200, 2000), ("random cases with per-position character classes", 2000, 20000), ("re-classed repeat calls", 10000, 100000), ("random cases over an alphabet of 41-110 symbols", 3000, 30000), ("hook matrix growths", 3, 3), ("hook matrix max size", 50, 50)],
+            Which::Distance => vec![("exhaustive pairs", 100000, 2000000), ("prefix cells compared", 1000000, 20000000), ("pairs where a discount lowered the distance", 10000, 100000), ("random pairs beyond capacity 20", 500, 5000), ("long pairs with sampled prefix cells", 200, 2000), ("random cases with per-position character classes", 2000, 20000), ("re-classed repeat calls", 10000, 100000), ("random cases over an alphabet of 41-110 symbols", 3000, 30000), ("calls with one word held fixed while the other grows", 20000, 200000), ("hook matrix growths", 3, 3), ("hook matrix max size", 50, 50)],
             Which::Jaccard => vec![("exhaustive pairs", 100000, 1500000), ("pairs with partial overlap", 20000, 200000), ("pairs beyond the initial capacity of 20", 500, 5000), ("random cases over a wide alphabet", 1000, 10000), ("hook jaccard accesses", 100000, 1000000)],
             Which::Index => vec![("prepare calls", 5000, 50000), ("capped calls", 500, 5000), ("calls with ties at the cut", 100, 1000), ("size 0", 300, 3000), ("corpus prepare calls", 200, 2000), ("stores of 1023-5000 records", 50, 500), ("queries with more than 255 distinct grams", 300, 15000), ("calls at the boundary between 'all listed' and 'capped'", 300, 15000), ("session calls on one index", 1000000, 10000000), ("most calls on one index max ", 131000, 131000), ("sessions past 2^17 calls", 2, 20), ("calls with a query without words", 300, 3000), ("stores of words with letters above U+FFFF and their 16-bit look-alikes", 300, 3000)],
             Which::Unchecked => vec![("direct distance/similarity calls", 20000, 200000), ("direct calls beyond capacity 20", 5000, 50000), ("store-level searches", 5000, 50000), ("store-level rounds with 127-1500 records", 200, 2000), ("store-level rounds with clear and re-add", 500, 5000), ("type-ahead sequences with adds in between", 1000, 10000), ("direct call sequences with words of 76-420 letters", 200, 2000), ("direct call sequences with arithmetic length relations", 300, 3000), ("store-level queries of 65-200 words", 300, 3000), ("searches on a surviving store after a neighbour store was dropped", 3000, 30000), ("stores filled on one thread and searched on another", 500, 5000), ("direct calls whose arguments share their buffers", 5000, 50000), ("jaccard calls on sets of 256-70000 distinct elements", 20, 200), ("hook matrix accesses", 1000000, 10000000), ("hook matrix growths", 3, 3), ("hook matrix max size", 50, 50), ("hook counter accesses", 10000, 100000), ("hook cost accesses", 100000, 1000000), ("hook jaccard accesses", 10000, 100000)],
@@ -890,6 +890,35 @@ impl Prop for Prims {
                     cx.count("random cases with per-position character classes");
                 }
                 let miri = cx.tier == Tier::Miri;
+                if !miri && cx.rng.chance(1, 4) {
+                    // one word held fixed on one side while the other side grows past every capacity step, nothing in
+                    // between (what a search does: one query word against record word after record word)
+                    let inst = DamerauLevenshtein::new();
+                    let fixed: Vec<char> = (0..cx.rng.range(2, 7)).map(|_| *cx.rng.pick(&alpha)).collect();
+                    let tf = classed(&fixed);
+                    let fixed_first = cx.rng.chance(1, 2);
+                    let mut lens = vec![3usize, 25, 4, 40, 5, 60, 3, 90];
+                    if cx.rng.chance(1, 2) {
+                        lens = vec![cx.rng.range(1, 8), cx.rng.range(21, 33), cx.rng.range(34, 51), cx.rng.range(1, 8), cx.rng.range(52, 78)];
+                    }
+                    for n in lens {
+                        let other: Vec<char> = (0..n).map(|_| *cx.rng.pick(&alpha)).collect();
+                        let to = classed(&other);
+                        cx.ctx(format!("C16 fixed word {:?} ({}) against {:?}", s(&fixed), if fixed_first { "first" } else { "second" }, s(&other)));
+                        let (got, want) = if fixed_first {
+                            (inst.distance(&tf.view(0), &to.view(0)), DamerauLevenshtein::new().distance(&tf.view(0), &to.view(0)))
+                        } else {
+                            (inst.distance(&to.view(0), &tf.view(0)), DamerauLevenshtein::new().distance(&to.view(0), &tf.view(0)))
+                        };
+                        cx.eval();
+                        cx.count("calls with one word held fixed while the other grows");
+                        if got != want {
+                            cx.fail_sig("distance-law", "distance-law:depends-on-history".into(), json!({"fixed_word": s(&fixed), "fixed_side": if fixed_first { "first" } else { "second" }, "other_word": s(&other),
+                                "history": "one instance; the fixed word against other words of 3-90 letters in a row, nothing in between", "distance": got, "fresh_instance": want}));
+                            break;
+                        }
+                    }
+                }
                 for step in 0..(if miri { 2 } else { 6 }) {
                     let k = if alpha.len() > 40 { cx.rng.range(21, alpha.len()) } else { cx.rng.range(2, alpha.len()) };
                     let long = (step + idx as usize) % 2 == 0;
